@@ -293,6 +293,7 @@ type c07Desc struct {
 	Data     string            `json:"data,omitempty"`
 	Platform string            `json:"platform,omitempty"`
 	AType    string            `json:"artifactType,omitempty"`
+	EmptyAnn bool              `json:"annotations_empty_map,omitempty"` // non-nil empty annotation map
 }
 
 type c07Blob struct {
@@ -321,13 +322,22 @@ type c07Case struct {
 	VOCI    *c07Desc          `json:"verify_descriptor,omitempty"`
 	VBlob   *c07Blob          `json:"verify_blob,omitempty"`
 	VMeta   map[string]string `json:"verify_user_metadata,omitempty"`
+	// one signer INSTANCE is shared by the cases of a history group, in generation order
+	Group string `json:"history_group,omitempty"`
+	// other signatures the repository lists with the genuine one at verification
+	// (other-desc: trusted signer, other artifact and metadata values; untrusted: same artifact, untrusted signer)
+	Decoys   []string `json:"decoy_signatures,omitempty"`
+	DecoyPos string   `json:"decoy_position,omitempty"` // before | after | both
+	// non-nil empty maps instead of nil
+	MetaEmpty  bool `json:"user_metadata_empty_map,omitempty"`
+	VMetaEmpty bool `json:"verify_user_metadata_empty_map,omitempty"`
 	// observation (filled by the run)
 	Obs map[string]any `json:"obs,omitempty"`
 }
 
 func (d *c07Desc) toOCI() ocispec.Descriptor {
 	o := ocispec.Descriptor{MediaType: d.MT, Digest: digest.Digest(d.Digest), Size: d.Size, URLs: d.URLs, ArtifactType: d.AType}
-	if d.Anns != nil {
+	if d.Anns != nil || d.EmptyAnn {
 		o.Annotations = map[string]string{}
 		for k, v := range d.Anns {
 			o.Annotations[k] = v
@@ -440,6 +450,43 @@ func sortedKeys(m map[string]json.RawMessage) []string {
 
 // ---------- the run ----------
 
+type signerBoth interface {
+	notation.Signer
+	notation.BlobSigner
+}
+
+type groupState struct {
+	sg   signerBoth
+	plug *scriptPlugin
+}
+
+// makeDecoy produces, with the real signing API, another signature the
+// repository lists next to the genuine one; it must not verify for the artifact.
+func makeDecoy(ctx context.Context, e *env, k *keyInfo, c *c07Case, kind string, n int) sigEntry {
+	dk := k
+	dd := c.VOCI.toOCI()
+	if kind == "untrusted" {
+		dk = e.untrusted
+	} else {
+		dd.Digest = digest.FromString(fmt.Sprint("decoy", n, c.VOCI.Digest))
+		dd.Size++
+	}
+	meta := map[string]string{"decoy": kind}
+	for mk, mv := range c.Meta {
+		meta[mk] = mv + "-decoy"
+	}
+	s, err := signer.NewGenericSigner(dk.Key, dk.Chain)
+	if err != nil {
+		panic(err)
+	}
+	r := &mockRepo{desc: dd}
+	if _, _, err := notation.SignOCI(ctx, s, r, notation.SignOptions{SignerSignOptions: notation.SignerSignOptions{SignatureMediaType: c.Format},
+		ArtifactReference: string(dd.Digest), UserMetadata: meta}); err != nil || len(r.sigs) != 1 {
+		panic(fmt.Sprintf("c07: decoy signature: %v", err))
+	}
+	return r.sigs[0]
+}
+
 type env struct {
 	keys      map[string]*keyInfo
 	vTrusted  notation.Verifier
@@ -447,6 +494,7 @@ type env struct {
 	bvTrusted notation.BlobVerifier
 	bvUntrust notation.BlobVerifier
 	agent0    string
+	untrusted *keyInfo // EC-256 leaf under the root the policies do not trust
 }
 
 func setup() *env {
@@ -456,6 +504,8 @@ func setup() *env {
 	for _, k := range makeKeys(root) {
 		e.keys[k.Name] = k
 	}
+	uk := Mint(CertSpec{Subject: Name("c07 untrusted leaf"), Leaf: true}, other)
+	e.untrusted = &keyInfo{Name: "EC-256", Type: "KEC", Size: 256, Key: uk.Key, Chain: []*x509.Certificate{uk.C, other.C}}
 	store := NewMockStore()
 	store.Put(truststore.TypeCA, "s", root.C)
 	store.Put(truststore.TypeCA, "o", other.C)
@@ -499,12 +549,13 @@ func runC07(a *Args) error {
 	prelude := "From NV Require Import Base C07_Model.\nOpen Scope string_scope.\n"
 	w := NewCaseWriter(a, "C07", prelude, "case", "run")
 	w.ShardSize = 600
-	w.Rule = "sign->verify pairs on the real API: {RSA-2048/3072/4096, EC-256/384/521} x {JWS, COSE} x {OCI descriptor, blob} x {local signer, plugin signature generator, plugin envelope generator} as a full grid with generated descriptors (urls, data, platform, artifactType, annotations), blob contents of sizes 0..1 MiB (thorough: 4 MiB), media types, user-metadata maps (quotes, HTML characters, non-ASCII, U+2028, empty values), expiry durations (0, seconds .. 100 years), signing agents; plus streams that violate one rule each: illegal arguments (negative / sub-second duration, bad envelope or content media type), reserved or clashing metadata keys, untrusted signer, changed blob / descriptor / media type at verification, metadata demanded at verification (subset, wrong value, missing, reserved), plugins that describe an unknown or a wrong key spec or have no / both capabilities, strings that are not valid UTF-8. non-trivial = signing succeeded and verification was attempted; distinct = distinct input tuples"
+	w.Rule = "sign->verify pairs on the real API: {RSA-2048/3072/4096, EC-256/384/521} x {JWS, COSE} x {OCI descriptor, blob} x {local signer, plugin signature generator, plugin envelope generator} as a full grid with generated descriptors (urls, data, platform, artifactType, annotations), blob contents of sizes 0..1 MiB (thorough: 4 MiB), media types, user-metadata maps (quotes, HTML characters, non-ASCII, U+2028, empty values), expiry durations (0, seconds .. 100 years), signing agents; plus streams that violate one rule each: illegal arguments (negative / sub-second duration, bad envelope or content media type), reserved or clashing metadata keys, untrusted signer, changed blob / descriptor / media type at verification, metadata demanded at verification (subset, wrong value, missing, reserved), plugins that describe an unknown or a wrong key spec or have no / both capabilities, strings that are not valid UTF-8, descriptor sizes around 2^53 (JWS float64 finding); systematic families: verification LESS specific than signing (no content media type, nil / empty / one / all metadata), nil vs empty maps and empty keys / values, history (ONE signer instance signs 4 things in sequence with an illegal request in the middle, each step its own case), other signatures (other artifact / untrusted signer) listed before / after / around the genuine one in the repository. non-trivial = signing succeeded and verification was attempted; distinct = distinct input tuples"
 	w.Assumptions = []string{
 		"the clock value read inside Sign is taken from the signing time found in the envelope (its sub-second part from a clock reading just before the call)",
 		"signatures verify well before their expiry (generated durations are 0 or >= 1 hour)",
 		"the scripted plugin is faithful: it signs the bytes it is given with the described key and the requested hash / expiry",
 		"trust store content decides trust: the policy names a store holding the root of the signing chain (trusted) or another root (not trusted); revocation passes (no OCSP/CRL pointers)",
+		"signatures that the repository lists besides the genuine one (made for another artifact or by an untrusted signer) do not change the observation: the model is evaluated on the genuine one alone",
 		"sign error classes are recognised from the (stable) error texts of notation.go; verification error classes from error types and texts",
 	}
 	e := setup()
@@ -512,20 +563,24 @@ func runC07(a *Args) error {
 	ctx := context.Background()
 
 	var id int64
+	groups := map[string]*groupState{}
 	runCase := func(c *c07Case) {
 		my := id
 		id++
-		if !w.Want(my) {
-			return
+		record := w.Want(my)
+		if !record && c.Group == "" {
+			return // (the steps of a history group always run: later steps depend on the instance's past)
 		}
 		k := e.keys[c.Key]
 		// ----- signer
 		var plug *scriptPlugin
-		var sg interface {
-			notation.Signer
-			notation.BlobSigner
-		}
-		if c.Signer == "local" {
+		var sg signerBoth
+		if gs, ok := groups[c.Group]; ok && c.Group != "" {
+			sg, plug = gs.sg, gs.plug
+			if plug != nil {
+				plug.sigReq, plug.envReq, plug.envTime = nil, nil, time.Time{}
+			}
+		} else if c.Signer == "local" {
 			s, err := signer.NewGenericSigner(k.Key, k.Chain)
 			if err != nil {
 				panic(err)
@@ -545,8 +600,14 @@ func runC07(a *Args) error {
 			}
 			sg = s
 		}
+		if c.Group != "" {
+			groups[c.Group] = &groupState{sg, plug}
+		}
 		sopts := notation.SignerSignOptions{SignatureMediaType: c.Format, ExpiryDuration: time.Duration(c.DurNs), SigningAgent: c.Agent}
-		cpMeta := func(m map[string]string) map[string]string {
+		cpMeta := func(m map[string]string, empty bool) map[string]string {
+			if m == nil && empty {
+				return map[string]string{}
+			}
 			if m == nil {
 				return nil
 			}
@@ -568,7 +629,7 @@ func runC07(a *Args) error {
 			d := c.OCI.toOCI()
 			repo = &mockRepo{desc: d}
 			targetTerm = CApp("TOCI", descTerm(d))
-			_, _, serr = notation.SignOCI(ctx, sg, repo, notation.SignOptions{SignerSignOptions: sopts, ArtifactReference: c.OCI.Digest, UserMetadata: cpMeta(c.Meta)})
+			_, _, serr = notation.SignOCI(ctx, sg, repo, notation.SignOptions{SignerSignOptions: sopts, ArtifactReference: c.OCI.Digest, UserMetadata: cpMeta(c.Meta, c.MetaEmpty)})
 			if serr == nil && len(repo.sigs) == 1 {
 				sig = repo.sigs[0].blob
 			}
@@ -586,7 +647,7 @@ func runC07(a *Args) error {
 				vtargetTerm = CApp("TBlob", blobTerm(vcontent), CStr(c.VBlob.MT), CBool(mtOK(c.VBlob.MT)))
 			}
 			sig, _, serr = notation.SignBlob(ctx, blobSignerShim{sg, &shash}, bytes.NewReader(content),
-				notation.SignBlobOptions{SignerSignOptions: sopts, ContentMediaType: c.Blob.MT, UserMetadata: cpMeta(c.Meta)})
+				notation.SignBlobOptions{SignerSignOptions: sopts, ContentMediaType: c.Blob.MT, UserMetadata: cpMeta(c.Meta, c.MetaEmpty)})
 			if serr != nil {
 				sig = nil
 			}
@@ -603,7 +664,9 @@ func runC07(a *Args) error {
 		if sig != nil {
 			ct, err := CoreVerify(c.Format, sig)
 			if err != nil {
-				w.ImplViolation(my, "the signing API returned an envelope that notation-core-go does not verify: "+err.Error(), c, "")
+				if record {
+					w.ImplViolation(my, "the signing API returned an envelope that notation-core-go does not verify: "+err.Error(), c, "")
+				}
 				return
 			}
 			var top map[string]json.RawMessage
@@ -651,11 +714,26 @@ func runC07(a *Args) error {
 			if c.Kind == "oci" {
 				vd := c.VOCI.toOCI()
 				vrepo := &mockRepo{desc: vd, sigs: repo.sigs}
+				if len(c.Decoys) > 0 {
+					var ds []sigEntry
+					for n, kind := range c.Decoys {
+						ds = append(ds, makeDecoy(ctx, e, k, c, kind, n))
+					}
+					switch c.DecoyPos {
+					case "before":
+						vrepo.sigs = append(ds, repo.sigs...)
+					case "after":
+						vrepo.sigs = append(append([]sigEntry(nil), repo.sigs...), ds...)
+					default:
+						h := (len(ds) + 1) / 2
+						vrepo.sigs = append(append(append([]sigEntry(nil), ds[:h]...), repo.sigs...), ds[h:]...)
+					}
+				}
 				v := e.vTrusted
 				if !c.Trusted {
 					v = e.vUntrust
 				}
-				ret, outs, err := notation.Verify(ctx, v, vrepo, notation.VerifyOptions{ArtifactReference: scopedRepo + "@" + c.VOCI.Digest, MaxSignatureAttempts: 10, UserMetadata: cpMeta(c.VMeta)})
+				ret, outs, err := notation.Verify(ctx, v, vrepo, notation.VerifyOptions{ArtifactReference: scopedRepo + "@" + c.VOCI.Digest, MaxSignatureAttempts: 10, UserMetadata: cpMeta(c.VMeta, c.VMetaEmpty)})
 				vcode = verifyClass(err)
 				if err != nil {
 					obs["verify_error"] = Short(err.Error(), 300)
@@ -675,7 +753,7 @@ func runC07(a *Args) error {
 					bv = e.bvUntrust
 				}
 				ret, out, err := notation.VerifyBlob(ctx, blobVerifierShim{bv, &vhash}, bytes.NewReader(vcontent), sig, notation.VerifyBlobOptions{
-					BlobVerifierVerifyOptions: notation.BlobVerifierVerifyOptions{SignatureMediaType: c.Format, UserMetadata: cpMeta(c.VMeta)},
+					BlobVerifierVerifyOptions: notation.BlobVerifierVerifyOptions{SignatureMediaType: c.Format, UserMetadata: cpMeta(c.VMeta, c.VMetaEmpty)},
 					ContentMediaType:          c.VBlob.MT})
 				vcode = verifyClass(err)
 				if err != nil {
@@ -720,6 +798,9 @@ func runC07(a *Args) error {
 		cc := *c
 		cc.Obs = nil
 		kb, _ := json.Marshal(cc)
+		if !record {
+			return
+		}
 		w.Add(my, term, c, string(kb), sig != nil)
 		w.Count("family", c.Family)
 		w.Count("key", c.Key)
